@@ -179,5 +179,8 @@ ShapesQ == {<<1>>, <<2>>, <<3>>, <<1, 1>>, <<1, 2>>, <<2, 1>>, <<2, 2>>}
 ShapesT == ShapesQ \cup {<<4>>, <<1, 3>>, <<3, 1>>, <<1, 1, 1>>, <<1, 1, 2>>, <<1, 2, 1>>, <<2, 1, 1>>, <<2, 2, 2>>}
 ShapesTable == {<<2>>, <<3>>, <<2, 2>>, <<2, 2, 2>>}
 ShapesAlert == {<<2>>, <<3>>, <<2, 2>>}
+ShapesTableQ == {<<3>>, <<2, 2>>}
+ShapesOne == {<<2>>}
+ShapesXo == {<<2, 2>>}
 ShapesEpic == {<<2>>, <<3>>, <<2, 2>>, <<1, 2>>, <<2, 1>>, <<2, 2, 2>>}
 =============================================================================
